@@ -68,20 +68,21 @@ UNIQ_EXT = '''
 class UnitX(Unit):
     name = 'X'
     props = ('C02', 'C08')
+    parts = ('field', 'flatten', 'extension', 'complex_type')
 
     def build(self, repo, probe=False):
         out = Out()
         G = Gen(repo)
         out.spec('#![feature(allocator_api)]\n#![feature(pattern)]\n#![allow(unused_imports)]\n' + HEAD)
         self._trusted = prelude(out, ['ax-rc', 'ax-string-eq', 'ax-str-ext', 'ax-display-ref', 'ax-hash-string', 'ax-split-once', 'stdspec-contains',
-                                      'stdspec-as-deref', 'stdspec-option-combinators', 'stdspec-split-once', 'stdspec-string-eq-str', 'stdspec-starts-with',
-                                      'stdspec-slice-iter', 'ax-slice-iter'])
+                                      'stdspec-as-deref', 'stdspec-option-combinators', 'stdspec-split-once', 'stdspec-string-eq-str', 'stdspec-starts-with', 'stdspec-trim',
+                                      'stdspec-slice-iter', 'ax-slice-iter', 'ax-trim'])
         self._trusted += sections(out, 'dep_io.rs', ['io-write-ghost'])
         self._trusted += sections(out, 'dep_misc.rs', ['inflector', 'url', 'roxmltree-node'])
         out.spec(MOD_HEAD.replace('broadcast use crate::ax::display_ref;',
                                   'broadcast use {crate::ax::display_ref, crate::ax::rc_clone_eq, crate::ax::string_peq, crate::ax::str_ext, '
                                   'crate::ax::string_key_model, crate::ax::string_of_view, crate::ax::view_string_of, crate::ax::borrowed_string_key, crate::ax::borrowed_string_value, '
-                                  'crate::ax::split_once_char, crate::ax::iter_seq_is_remaining, vstd::std_specs::hash::group_hash_axioms};\n'
+                                  'crate::ax::split_once_char, crate::ax::iter_seq_is_remaining, crate::ax::trim_idempotent, vstd::std_specs::hash::group_hash_axioms};\n'
                                   '    use crate::stdspec::{peq, split_once_spec};\n    use crate::ax::string_of;\n'
                                   '    use crate::roxmltree::{Node, anc, all_kids, attr, tag, is_elem, parent_of, elem_kids, height, element_children};'))
         w = UnitW()
@@ -90,6 +91,14 @@ class UnitX(Unit):
         self._trusted += w._trusted
         out.spec(spec_section('F_spec.rs', 'qname-spec'))
         with_field = os.environ.get('VERIF_X_FIELD', '1') != '0'
+        if self.parts == ('facets',):
+            # unit XR: only the facet-reading functions of structures/restrictions.rs (kept apart so that a change to complex.rs / field.rs
+            # cannot make the C07 check inconclusive)
+            out.spec(spec_section('X_spec.rs', 'facet-spec'))
+            self._trusted += sections(out, 'X_glue.rs', ['restrictions-default'])
+            self.emit_facets(out, G, probe)
+            out.spec('}\n' + TAIL)
+            return out
         out.spec(spec_section('X_spec.rs', 'field-flags-spec' if with_field else 'field-relation-uninterp'))
         out.spec(spec_section('X_spec.rs', 'flatten-spec'))
         G.verbatim(out, 'model/mod.rs', 'trait', 'TryFromNode')
@@ -214,6 +223,29 @@ class UnitX(Unit):
                            {'at': 'if node.tag_name().name() == "any"', 'text': FLAGS_HINT}])
         close_container(out, im, f)
 
+    def emit_facets(self, out, G, probe):
+        rel = 'model/structures/restrictions.rs'
+        f = SRC + rel
+        fn = G.top(rel, 'fn', 'get_restriction_from_attribute_or_node')
+        splice_fn(out, fn, f, 'restrictions::get_restriction_from_attribute_or_node', probe=probe, specified=('trim',),
+                  ensures=[('facet-from-attribute-or-first-child', 'facet_is(restriction, restriction_name@, opt_view(*old(target_field)), opt_view(*final(target_field)))')],
+                  origin={'facet-from-attribute-or-first-child': 'property'},
+                  closures=[{'at': '|n| n.tag_name().name() == restriction_name', 'ensures': 'b == (tag(*n) == restriction_name@)'}],
+                  inserts=[{'pos': 'body_start', 'text': reveal('value')}])
+        FACETS = [('min_inclusive', 'minInclusive'), ('max_inclusive', 'maxInclusive'), ('min_exclusive', 'minExclusive'), ('max_exclusive', 'maxExclusive'),
+                  ('total_digits', 'totalDigits'), ('fraction_digits', 'fractionDigits'), ('length', 'length'), ('min_length', 'minLength'),
+                  ('max_length', 'maxLength'), ('white_space', 'whiteSpace'), ('pattern', 'pattern')]
+        fn = G.top(rel, 'fn', 'build_restrictions')
+        import re as _re
+        m = _re.search(r'restriction\s*\.children\(\)\s*\.filter\(.*?\.collect::<Vec<String>>\(\)', fn.body, _re.S)
+        if not m:
+            raise AnchorLost('restrictions::build_restrictions: the enumeration expression was not found')
+        splice_fn(out, fn, f, 'restrictions::build_restrictions', probe=probe,
+                  ensures=[(f'facet-{x}', f'facet_is(restriction, "{x}"@, None, opt_view(res.{fld}))') for fld, x in FACETS],
+                  origin={f'facet-{x}': 'property' for _, x in FACETS},
+                  opaque=[G.opaque(out, m.group(0), 'Vec<String>')],
+                  inserts=[{'pos': 'body_start', 'text': reveal(*[x for _, x in FACETS])}])
+
     def emit_complex_type(self, out, G, rel, f, probe):
         im = G.top(rel, 'impl', r'.*TryFromNode.* for ComplexProps')
         open_container(out, im, f)
@@ -245,9 +277,23 @@ class UnitX(Unit):
     def props_of(self, ob):
         if ob.endswith('#safety') or ob.endswith('#decreases') or 'loop0-decreases' in ob:
             return ['C13']
+        if ob.startswith('restrictions::'):
+            return ['C07']
         if 'import_extension_fields' in ob or 'read_complex_content_node' in ob:
             return ['C08']
         return ['C02', 'C08']
 
     def trusted_base(self):
         return list(self._trusted)
+
+
+class UnitXR(UnitX):
+    """the facet-reading functions of structures/restrictions.rs (C07, generator half)"""
+    name = 'XR'
+    props = ('C07',)
+    parts = ('facets',)
+
+    def props_of(self, ob):
+        if ob.endswith('#safety'):
+            return ['C13']
+        return ['C07']
